@@ -1,3 +1,4 @@
 SPECIFICATION Spec
+CONSTANT L = 4
 POSTCONDITION Accepted
 CHECK_DEADLOCK FALSE
